@@ -88,6 +88,13 @@ def gen_case(rng, index, tier):
                'c': world.trashinfo_text('whatever', '2001-01-01T00:00:00')})
         odd.append('dot-trashinfo')
     if rng.random() < 0.2:
+        # info files whose payload name would be '.' or '..'
+        t = rng.choice(trashes)
+        nm = rng.choice(['...trashinfo', '..trashinfo'])
+        L.add({'p': t['rel'] + '/info/' + nm, 't': 'f',
+               'c': world.trashinfo_text('whatever2', '2001-01-01T00:00:00')})
+        odd.append('dots-trashinfo')
+    if rng.random() < 0.2:
         t = rng.choice(trashes)
         L.add({'p': t['rel'] + '/files/orphan link', 't': 'l',
                'to': '@/' + rng.choice(canaries)})
@@ -113,6 +120,8 @@ def gen_case(rng, index, tier):
     case['odd'] = odd
     case['via_link'] = via_link
     case['entries'] = entries
+    case['fseed'] = rng.getrandbits(30)
+    case['nfaults'] = 2
     return case
 
 
@@ -153,7 +162,7 @@ def run_case(case):
         bad = []
         for e in r.mut():
             obs['mutating_events_checked'] = obs.get('mutating_events_checked', 0) + 1
-            for p in e['p']:
+            for p in list(e['p']) + ([e['follows']] if e.get('follows') else []):
                 if p is None:
                     continue
                 if not any(p.startswith(x + '/') and len(p) > len(x) + 1
@@ -184,6 +193,50 @@ def run_case(case):
                 out['violations'].append({
                     'mechanism': 'entry-%s/%s' % (st, case['cmd']),
                     'detail': {'entry': e, 'run': r.brief(), 'odd': case['odd']}})
+        # ---- the same purge with one removal inside a tree failing (EACCES /
+        # EPERM, as for a non-root user): error handling must not reach out
+        ref_events = [e for e in r.events if e['c'] == 'M' and
+                      e['op'] in ('unlink', 'rmdir', 'remove')]
+        n_fault_runs = 0
+        if ref_events and not out['violations']:
+            import random
+            frng = random.Random(case.get('fseed', 0))
+            picks = frng.sample(ref_events, min(len(ref_events), case.get('nfaults', 2)))
+            for fe in picks:
+                err = frng.choice([13, 1, 30])
+                with world.World(case) as w2:
+                    t0 = w2.snapshot()
+                    plan = {'faults': {str(fe['k']): err}}
+                    opts2 = [world.subst(o, w2.R) for o in case['opts']]
+                    if case['cmd'] == 'empty':
+                        r2 = run.run(w2, 'empty', opts2, stdin=b'', plan=plan)
+                    elif case['cmd'] == 'empty-days':
+                        r2 = run.run(w2, 'empty', opts2 + [str(case['days'])],
+                                     stdin=b'', plan=plan)
+                    else:
+                        r2 = run.run(w2, 'rm', [case['pattern']], stdin=b'', plan=plan)
+                    t1 = w2.snapshot()
+                    n_fault_runs += 1
+                    od2 = trashworld.outside_trash_diff(t0, t1, case['trashes'])
+                    if od2:
+                        out['violations'].append({
+                            'mechanism': 'changed-outside-trash-after-failed-removal/%s' % case['cmd'],
+                            'detail': {'diff': od2[:8], 'run': r2.brief(),
+                                       'fault': [fe['op'], err,
+                                                 [(p or '').replace(w.R, '@R') for p in fe['p']]]}})
+                    roots2 = []
+                    for t in case['trashes']:
+                        rt = os.path.realpath(w2.abs(t))
+                        roots2 += [rt + '/files', rt + '/info']
+                    for e in r2.mut():
+                        for p in list(e['p']) + ([e['follows']] if e.get('follows') else []):
+                            if p and not any(p.startswith(x + '/') and len(p) > len(x) + 1
+                                             for x in roots2):
+                                out['violations'].append({
+                                    'mechanism': 'mutating-op-outside-files-info-after-failed-removal/%s/%s' % (case['cmd'], e['op']),
+                                    'detail': {'event': e, 'run': r2.brief()}})
+                                break
+        obs['fault_runs'] = n_fault_runs
         out['nontrivial'] = purged > 0
         out['sample_obs'] = {'exit': r.exit, 'purged_links': purged,
                              'stderr': r.errtext()[-200:]}
